@@ -254,9 +254,31 @@ def build(tier, repo):
         if not offvars:
             continue
         node = c.funcs[cfn]
-        txt = c.text(node["b"], node["e"])
+        txt = cx.strip_pp(c.text(node["b"], node["e"]))
+        # running index variables seeded from an offset (`ip = ox + m`, `for (.., iu = oy + m; ..)`)
+        # inherit the matrix of that offset
+        derived = {}
+        for _round in range(3):
+            for ma in re.finditer(r"\b([A-Za-z_]\w*)\s*=\s*([^;,=][^;,]*)", txt):
+                v, rhs = ma.group(1), ma.group(2)
+                if v in offvars:
+                    continue
+                src_ = {offvars[o] for o in offvars if re.search(r"\b%s\b" % o, rhs)} | \
+                       {X_ for d_, Xs in derived.items() for X_ in Xs if d_ != v and re.search(r"\b%s\b" % d_, rhs)}
+                if src_:
+                    derived.setdefault(v, set()).update(src_)
         for mt in re.finditer(r"MAT_BUF[DZI]?\(\s*(\w+)\s*\)\s*((?:\+\s*[\w*() ]+?)+)\s*[,)]", txt):
             X, tail = mt.group(1), mt.group(2)
+            for v, Xs in derived.items():
+                if re.search(r"\b%s\b" % v, tail):
+                    key = "%s:MAT_BUF(%s) + ..%s.." % (cfn, X, v)
+                    where = "src/C/misc_solvers.c:%s" % cfn
+                    if Xs == {X}:
+                        r4.ok(key, where, "%s runs from o%s" % (v, X))
+                    else:
+                        r4.violation(key, where,
+                                     "the buffer of `%s` is addressed with the running index `%s`, which starts from the offset of argument `%s`"
+                                     % (X, v, "/".join(sorted(Xs))), "an index seeded from o%s" % X, "%s seeded from o%s" % (v, "/o".join(sorted(Xs))))
             used = [v for v in offvars if re.search(r"\b%s\b" % v, tail)]
             for v in used:
                 key = "%s:MAT_BUF(%s) + ..%s.." % (cfn, X, v)
@@ -371,6 +393,63 @@ def build(tier, repo):
                 r7.violation(key, where, "the arms of this chain write different argument matrices: %s" % [(a_[:30], sorted(w_)) for a_, w_ in arms],
                              "same outputs in every arm", [(a_[:30], sorted(w_)) for a_, w_ in arms])
 
+    r8 = chk.rule("C08-R8", "compiled kernels special-case a cone block only on size zero, as the Python reference does (`if m:`)",
+                  "kernels agree with the reference for every block size, including orders 0 and 1")
+    from .. import ceval as cev
+    BLOCK_EXC = {("sprod", "(F,F,T,T)"): "`if (mk > 1)` only skips a loop whose copies have length zero for mk <= 1"}
+    for cfn in c.order:
+        node = c.funcs[cfn]
+        txt = cx.strip_pp(c.text(node["b"], node["e"]))
+        asg = {}
+        for ma in re.finditer(r"\b([A-Za-z_]\w*)\s*=\s*([^;=][^;]*);", txt):
+            asg.setdefault(ma.group(1), []).append(ma.group(2).strip())
+        bs = {v for v, rs in asg.items() if all(re.match(r"\(int\)\s*Py(Long|Int)_AsLong\s*\(", r_) for r_ in rs)}
+        if not bs:
+            continue
+        sim = cm.Simulator(c, cfn)
+        for st in cf.walk(node):
+            if st.get("k") != "IfStmt":
+                continue
+            ce_ = sim.cond_of(st)
+            if ce_ is None:
+                continue
+            names = cev.free_names(ce_)
+            direct = names & bs
+            der = {v for v in names - bs if v in asg and len(asg[v]) >= 1 and
+                   any(re.search(r"\b(%s)\b" % "|".join(map(re.escape, bs)), r_) for r_ in asg[v])}
+            if not (direct or der) or len(direct | der) != 1 or names - direct - der:
+                continue
+            key = "%s:block-size test `%s`" % (cfn, cx.unparse(ce_)[:50])
+            where = "src/C/misc_solvers.c:%s:%d" % (cfn, c.line_of(st["b"]))
+            b = sorted(direct)[0] if direct else None
+            vecs = set()
+            try:
+                if direct:
+                    vecs.add(tuple(bool(cev.ceval(ce_, {b: mval})) for mval in (0, 1, 2, 3)))
+                else:
+                    dv = sorted(der)[0]
+                    for r_ in asg[dv]:
+                        used = [x for x in bs if re.search(r"\b%s\b" % re.escape(x), r_)]
+                        if len(used) != 1:
+                            raise cev.Unknown("derived from several sizes")
+                        re_ = cx.parse(r_)
+                        vecs.add(tuple(bool(cev.ceval(ce_, {dv: cev.ceval(re_, {used[0]: mval})})) for mval in (0, 1, 2, 3)))
+            except (cev.Unknown, cx.ParseError, ZeroDivisionError) as ex:
+                r8.undecided(key, where, "condition on a block size not evaluable: %s" % ex)
+                continue
+            for vec in sorted(vecs):
+                tv = "(%s)" % ",".join("T" if x else "F" for x in vec)
+                if vec in ((False, True, True, True), (True, False, False, False), (True,) * 4, (False,) * 4):
+                    r8.ok(key, where, "zero test %s" % tv)
+                elif (cfn, tv) in BLOCK_EXC:
+                    r8.ok(key + ":named-exception", where, BLOCK_EXC[(cfn, tv)])
+                else:
+                    r8.violation(key, where,
+                                 "the kernel treats blocks of order m = 0,1,2,3 as %s: a special case by block size that the Python reference "
+                                 "(which only tests `if m:`) does not have, so the two implementations differ on the singled-out orders" % tv,
+                                 "(F,T,T,T): only empty blocks are special", tv)
+    r8.require(2)
+
     r6 = chk.rule("C08-R6", "sgemv restores its argument: trisc(x, ...) is undone by triusc on the same arguments on the normal path",
                   "touching nothing outside (and leaving unchanged) the addressed blocks")
     sg = m.funcs.get("sgemv")
@@ -378,7 +457,15 @@ def build(tier, repo):
         raise AnalysisError("misc.sgemv not found")
     tr = [n for n in ast.walk(sg) if isinstance(n, ast.Call) and pf.call_name(n) == "trisc"]
     tu = [n for n in ast.walk(sg) if isinstance(n, ast.Call) and pf.call_name(n) == "triusc"]
+    def _guard(n):
+        return sorted(repr(c_) for c_ in pf.path_condition(n, cross_loops=True))
     if tr and tu and [pf.norm_expr(a) for a in tr[0].args] == [pf.norm_expr(a) for a in tu[0].args] and tr[0].lineno < tu[0].lineno \
+            and {k.arg: pf.norm_expr(k.value) for k in tr[0].keywords} == {k.arg: pf.norm_expr(k.value) for k in tu[0].keywords} \
+            and _guard(tr[0]) != _guard(tu[0]):
+        r6.violation("misc.sgemv:trisc/triusc pairing", m.where(tu[0], sg),
+                     "the scaling of x and its inverse run under different conditions: on the paths where only one of them runs, x is left scaled",
+                     "triusc under %s" % _guard(tr[0]), "triusc under %s" % _guard(tu[0]))
+    elif tr and tu and [pf.norm_expr(a) for a in tr[0].args] == [pf.norm_expr(a) for a in tu[0].args] and tr[0].lineno < tu[0].lineno \
             and {k.arg: pf.norm_expr(k.value) for k in tr[0].keywords} == {k.arg: pf.norm_expr(k.value) for k in tu[0].keywords}:
         r6.ok("misc.sgemv:trisc/triusc pairing", m.where(tr[0], sg))
     else:
